@@ -40,7 +40,7 @@ class T:
         return ("N", neg, ip, fp)
 
     def s(self):
-        return ("S", self.r.choice(["x", "y", "z z", "a|b", "", "Q-1", "p.q", "it's", "(1)", "#no", "$5", "~t", "two\n    lines", " \n", "tab\there  x"]))      # a literal may span lines
+        return ("S", self.r.choice(["x", "y", "z z", "a|b", "", "Q-1", "p.q", "it's", "'", "'tis", "'quoted'", "o'", "(1)", "#no", "$5", "~t", "two\n    lines", " \n", "tab\there  x"]))      # a literal may span lines
 
     def hdr(self):
         r = self.r
